@@ -179,6 +179,64 @@ def one(args):
             'expected': m['out'][-30:]}
 
 
+IMPORT_FILES = {
+    'bad.lay': 'export let x = ;\n',
+    'bad2.lay': 'export let y = never_declared;\n',
+    'good.lay': ('export class G { init() { self.v = 5; } get() { return self.v; } }\n'
+                 'export fn use(g) { return g.get() + g.v; }\n'),
+    'good2.lay': ('export class H { init() { self.w = 7; } twice() { return self.w * 2; } }\n'
+                  'export fn probe(h) { return h.twice() + h.w; }\n'),
+}
+IMPORT_SESSIONS = [
+    ('bad then good', ['import self.bad;', 'import self.good:{G, use};', 'let g = G();', 'print(use(g));'], ['10']),
+    ('two bad then two good', ['import self.bad;', 'import self.bad2;', 'import self.good:{G, use};',
+                               'import self.good2:{H, probe};', 'print(use(G()), probe(H()));'], ['10 21']),
+    ('good, bad, good2, use both', ['import self.good:{G, use};', 'print(use(G()));', 'import self.bad;',
+                                    'import self.good2;', 'print(good2.probe(good2.H()), use(G()));'], ['10', '21 10']),
+    ('local sites, bad, good', ['class L { init() { self.q = 1; } m() { return self.q; } }', 'fn lf(o) { return o.m() + o.q; }',
+                                'print(lf(L()));', 'import self.bad2;', 'import self.good;', 'print(good.use(good.G()), lf(L()));'],
+     ['2', '10 2']),
+    ('missing module, then good', ['import self.nothere;', 'import self.good:{G, use};', 'print(use(G()));'], ['10']),
+    ('bad twice, good twice', ['import self.bad;', 'import self.bad;', 'import self.good;', 'import self.good as again;',
+                               'print(good.use(again.G()));'], ['10']),
+]
+
+
+def import_session(args):
+    i, label, lines, want = args
+    bad = ''
+    for cfg in ('dbg', 'rel'):
+        d = os.path.join(WORK[0], 'imp%d_%s' % (i, cfg))
+        os.makedirs(d, exist_ok=True)
+        for k, v in IMPORT_FILES.items():
+            open(os.path.join(d, k), 'w').write(v)
+        session = '\n'.join(lines) + '\n'
+        r = vlib.lyrun(BINS[cfg], None, ['--steps', '5000000'], stdin_text=session, timeout=30, cwd=d)
+        if r.outcome in ('timeout', 'harness'):
+            return label, None, session
+        got = [l for l in r.out.replace('laythe:> ', '').split('\n') if l]
+        if vlib.is_crash(r.outcome):
+            bad = bad or '%s: session crashed: %s %s' % (cfg, r.outcome, r.detail)
+        elif got != want:
+            bad = bad or '%s: stdout %r, expected %r' % (cfg, got, want)
+    return label, bad, session
+
+
+def import_sessions(chk):
+    """prompt sessions that import modules which fail to compile before modules that work"""
+    jobs = [(i, label, lines, want) for i, (label, lines, want) in enumerate(IMPORT_SESSIONS)]
+    for label, bad, session in vlib.pmap(import_session, jobs, chunksize=1):
+        if bad is None:
+            chk.inconclusive.append('import session did not finish: ' + label)
+            continue
+        chk.evaluations += 2
+        chk.count('import_sessions')
+        if bad:
+            files = dict(IMPORT_FILES)
+            files['session.txt'] = session
+            chk.violation('import session [%s]: %s' % (label, bad), files, {'label': label})
+
+
 def fixed_corpus(chk):
     import json
     try:
@@ -229,6 +287,7 @@ def main():
     WORK[0] = vlib.workdir(PROP)
     chk.run_witnesses(BINS['dbg'])
     fixed_corpus(chk)
+    import_sessions(chk)
     tags = {}
     for r in vlib.pmap(one, [(chk.seed, i) for i in range(n)], chunksize=4):
         if 'refused' in r:
